@@ -28,6 +28,47 @@ impl ProjFile {
             rendered: Some(r),
         }
     }
+    /// one statement per line, with doc / block comments (some ending in an even run of stars)
+    /// and line comments between the statements
+    pub fn from_doc_commented(id: &str, mut doc: Document) -> ProjFile {
+        let toks = emit(&mut doc);
+        let n = toks.len();
+        let r = crate::model::doc::layout(&toks, &|i| {
+            use crate::model::lex::Kind;
+            if i == 0 {
+                return Some("/** header **/\n".to_string());
+            }
+            if i >= n {
+                return Some("\n/* end */\n".to_string());
+            }
+            if matches!(toks[i - 1].kind, Kind::Semi | Kind::LBrace | Kind::RBrace) {
+                return Some(
+                    match i % 4 {
+                        0 => "\n  /** doc **/\n  ",
+                        1 => "\n  /* plain */ // line\n  ",
+                        2 => "\n  /***/ ",
+                        _ => "\r\n  /**\r\n   * doc é\r\n   **/\r\n  ",
+                    }
+                    .to_string(),
+                );
+            }
+            None
+        });
+        ProjFile {
+            id: id.to_string(),
+            text: r.text.clone(),
+            doc: Some(doc),
+            rendered: Some(r),
+        }
+    }
+    /// `commented` selects the commented layout
+    pub fn from_doc_styled(id: &str, doc: Document, commented: bool) -> ProjFile {
+        if commented {
+            ProjFile::from_doc_commented(id, doc)
+        } else {
+            ProjFile::from_doc(id, doc)
+        }
+    }
     pub fn from_rendered(id: &str, doc: Document, r: Rendered) -> ProjFile {
         ProjFile {
             id: id.to_string(),
